@@ -295,7 +295,7 @@ Why(C, X, e) ==
              ELSE "run-end-other")
        [] e.k = "run-exc" ->
             (IF e.v = "other" THEN "verdict-foreign-exception"
-             ELSE IF ~Over(X, n) /\ e.v = "cancelled" THEN "cancelled-run-ends-early"
+             ELSE IF ~Over(X, n) /\ e.v = "cancelled" THEN "cancelled-run-ends-early-" \o byCause
              ELSE IF ~Over(X, n) THEN "run-exc-early"
              ELSE IF X.st[n] = "ok" THEN "verdict-raise-instead-of-return" \o Claim(e, n) \o "-spec-" \o X.cause[n]
              ELSE IF X.st[n] = "exc" /\ X.res[n] # <<"exc", e.i>> THEN "verdict-exception-identity" \o Claim(e, n) \o "-spec-" \o X.cause[n]
